@@ -44,7 +44,7 @@ CFG = {
         "one case = one scenario on real sessions (phases of back-to-back issued events, observation at quiescence after "
         "each phase); classes: one terminating event after 0..20 queued sends (8 events x pipe/TCP), every ordered pair "
         "of terminating events sequentially and racing in one burst, flush with 0..20 sends (burst / one by one / "
-        "stalled peer that later reads), blocked write then each event, zero-length payloads between real ones, slow drain (50-65 queued sends, local Close, write timeout 800 ms, a peer reading one chunk every 40 ms so that the drain lasts 2-4 write timeouts while no write waits near one; net.Pipe and loopback TCP with every payload byte 8 KiB on the wire and 32 KiB socket buffers; a case is emitted only when the longest interval between peer reads and the latest 2 ms watchdog tick both stayed below a third of the write timeout, else retried up to 3 times and dropped, counted in harness_meta), concurrent Sends from 2-8 goroutines on one session in one to three rounds, then Close (small payloads, and large ones: every payload symbol is 8 or 32 KiB handed to Session.Send, 40 KiB-1.1 MiB per call, folded back by the peer; the calls are released by a spin barrier so that they overlap; the phase is marked concurrent and the order in which the calls took effect is read off the observation and checked in Coq to be a permutation of them), peer bytes written after the session is over (the handler must stay silent), a third of all scenarios with a connection whose Close closes and then returns an error, every way the read handler can unwind the receive loop, each deterministically on both transports (class handler-end: panic with a string / with nil - recover() answers nil under the go 1.19 semantics of the module - / with an error value / with a user type, runtime.Goexit), histories on one manager (a session ends with a write error while a payload is in hand, then a healthy session queues several equally sized payloads before its peer reads, then Close), an exit callback that takes 300 us in all racing classes and half of the walks (schedule perturbation only), Session.UpdateHandler before Start / after Start / twice / back to the manager's handler / after the exit / racing with the terminating event (class handler/*), a terminating event in the same burst as Start (start-race/*), the accept loop under genuine temporary Accept errors: back-off and recovery, giving up after acceptMaxRetry 1..8 failures, Server.Close with sessions alive (accept-errors/*; a scenario whose descriptor-table set-up cannot be verified is dropped and counted), session accessors Set/Get/SetRemoteAddr/Logger on every directly started session, several servers in one process (every accept scenario also starts one or two other stcp servers with different WithMaxConn / retry options before or after its own and leaves them idle: each server must go by the options it was started with), flush through the real accept path (class accept-flush: Server with the real SessionMgr as connection manager so that the accepted *net.TCPConn reaches SessionMgr.Do unwrapped, 80-110 Sends of 8-10 symbols of 32 KiB each - about 25 MiB, far beyond the socket buffers -, local Close, the peer starts to read only afterwards and must get every byte in order and then the end of the stream), the manager's own read and "
+        "stalled peer that later reads), blocked write then each event, zero-length payloads between real ones, slow drain (50-65 queued sends, local Close, write timeout 800 ms, a peer reading one chunk every 40 ms so that the drain lasts 2-4 write timeouts while no write waits near one; net.Pipe and loopback TCP with every payload byte 8 KiB on the wire and 32 KiB socket buffers; a case is emitted only when the longest interval between peer reads and the latest 2 ms watchdog tick both stayed below a third of the write timeout, else retried up to 3 times and dropped, counted in harness_meta), concurrent Sends from 2-8 goroutines on one session in one to three rounds, then Close (small payloads, and large ones: every payload symbol is 8 or 32 KiB handed to Session.Send, 40 KiB-1.1 MiB per call, folded back by the peer; the calls are released by a spin barrier so that they overlap; the phase is marked concurrent and the order in which the calls took effect is read off the observation and checked in Coq to be a permutation of them), peer bytes written after the session is over (the handler must stay silent), a third of all scenarios with a connection whose Close closes and then returns an error, every way the read handler can unwind the receive loop, each deterministically on both transports (class handler-end: panic with a string / with nil - recover() answers nil under the go 1.19 semantics of the module - / with an error value / with a user type, runtime.Goexit), histories on one manager (a session ends with a write error while a payload is in hand, then a healthy session queues several equally sized payloads before its peer reads, then Close), an exit callback that takes 300 us in all racing classes and half of the walks (schedule perturbation only), Session.UpdateHandler before Start / after Start / twice / back to the manager's handler / after the exit / racing with the terminating event (class handler/*), a terminating event in the same burst as Start (start-race/*), the accept loop under genuine temporary Accept errors: back-off and recovery, giving up after acceptMaxRetry 1..8 failures, Server.Close with sessions alive (accept-errors/*; a scenario whose descriptor-table set-up cannot be verified is dropped and counted), session accessors Set/Get/SetRemoteAddr/Logger on every directly started session, several servers in one process (every accept scenario also starts one or two other stcp servers with different WithMaxConn / retry options before or after its own and leaves them idle: each server must go by the options it was started with), flush through the real accept path (class accept-flush: Server with the real SessionMgr as connection manager so that the accepted *net.TCPConn reaches SessionMgr.Do unwrapped, 80-110 Sends of 8-10 symbols of 32 KiB each - about 25 MiB, far beyond the socket buffers -, local Close, the peer starts to read only afterwards and must get every byte in order and then the end of the stream), one more byte from the peer AFTER the local Close and BEFORE the queue has drained (class close-then-peer-byte on net.Pipe and on loopback TCP with about 25 MiB queued, and every second accept-flush scenario: the peer does not read yet, the send loop is blocked with 64 KiB and more queued, the handler consumes the byte, then the peer reads and must get everything - a deterministic member of every run), the manager's own read and "
         "write deadlines firing, accept loop with maxConn 0..3 (random arrivals, surplus, exits, re-arrivals), several "
         "sessions on one manager, random walks with bursts; non-trivial = at least one session ended (OnExit observed) "
         "or one connection was closed on accept; distinct = distinct Coq case term"
